@@ -255,10 +255,11 @@ def run(ctx):
         il = ktloops.index_loop(frs, h, full=True)
         hit = [p for p in il.break_paths if p.outcome[0] == "return" and const_int(p.outcome[1]) == 1]
         exh = [p for p in il.exh_paths if p.outcome[0] == "return" and const_int(p.outcome[1]) == 0]
-        cond = False
+        cond = bool(hit)
         for p in hit:
-            eqs = [a for a, v in p.guards() if v is True and isinstance(a, tuple) and a[0] == "eq"]
-            cond = len(eqs) == 1 and {keycode_of(eqs[0][1]) or "elem", keycode_of(eqs[0][2]) or "elem"} == {"RIGHTSHIFT", "elem"}
+            eqs = [a for a, v in p.guards() if isinstance(a, tuple) and a[0] == "eq"]
+            tr = [a for a, v in p.guards() if v is True and isinstance(a, tuple) and a[0] == "eq"]
+            cond = cond and len(eqs) == 1 and len(tr) == 1 and {keycode_of(tr[0][1]) or "elem", keycode_of(tr[0][2]) or "elem"} == {"RIGHTSHIFT", "elem"}
         okf = il.kind == "for-elements" and il.list_term == T("param", 1, frs.dbg.get(1, "")) and bool(hit) and bool(exh) and cond
     ck.ob("C13-T4", frs.path, "find_right_shift=some-trigger-key-is-RIGHTSHIFT", okf)
     cr = ctx.body("fancy_layout_interpreting::convert_row")
